@@ -39,16 +39,27 @@ class NohBlackBoxEos(ExactSolver):
             if self.geometry not in [1, 2, 3]:
                 raise ValueError("geometry must be 1, 2, or 3")
 
+        def _discard_cached_solution(self):
+              # A jump-condition solution cached by an earlier call was obtained
+              # with the old solver settings; force _run() to solve again.
+              self.shocked_density = None
+              self.shocked_pressure = None
+              self.shocked_energy = None
+              self.shock_speed = None
+
         def set_new_solver_initial_guess(self, new_initial_guess): # Perhaps put all of these together into one function? Or just leave independent?
               self.initial_guess = new_initial_guess
               self.initial_guess = new_initial_guess
+              self._discard_cached_solution()
 
         def set_new_solver_tolerance(self, new_tolerance):
               self.solver_tolerance = new_tolerance
               self.solver.set_new_tolerance(new_tolerance)
+              self._discard_cached_solution()
 
         def set_new_solver_max_iterations(self, new_max_iteration):
               self.solver_max_iterations = new_max_iteration
+              self._discard_cached_solution()
 
         def solve_jump_conditions(self): # Solve jump conditions outside of _run() to avoid iterating every time _run() is called.
                 self.residual_funciton.set_new_initial_conditions(self.initial_conditions)
